@@ -148,7 +148,17 @@ class PB(ExprBuilder):
                 if isinstance(v, ast.Constant):
                     parts.append(('sym', repr(v.value)))
                 elif isinstance(v, ast.FormattedValue):
-                    parts.append(self.build(v.value, env))
+                    val = self.build(v.value, env)
+                    spec = None
+                    if v.format_spec is not None:
+                        if isinstance(v.format_spec, ast.JoinedStr) and all(isinstance(x, ast.Constant) for x in v.format_spec.values):
+                            spec = "".join(str(x.value) for x in v.format_spec.values)
+                        else:
+                            spec = "?" + ast.unparse(v.format_spec)
+                    if v.conversion not in (-1, None):
+                        spec = "!" + chr(v.conversion) + (":" + spec if spec else "")
+                    # a format specification is part of what the text says (width, precision, conversion): kept with the value
+                    parts.append(('call', 'fmt', (val, ('sym', repr(spec)))) if spec else val)
             return ('call', 'fstr', tuple(parts))
         if isinstance(e, ast.Dict):
             ks = tuple(self.build(k, env) if k is not None else ('sym', '**') for k in e.keys)
